@@ -153,10 +153,8 @@ def load_performance_midi(
             if isinstance(msg, mido.MetaMessage):
                 if msg.type == "set_tempo":
                     mpq = msg.tempo
-                    if (
-                        tempo_changes[-1][1] != mpq
-                    ):  # only add new tempo if it's different from the last one
-                        tempo_changes.append((ttick, mpq))
+                    # (every event is kept: the previous entry may stem from another track)
+                    tempo_changes.append((ttick, mpq))
                     time_conversion_factor = mpq / (ppq * 10**6)
                 elif msg.type == "time_signature":
                     time_signatures.append(
